@@ -617,6 +617,13 @@ func sliceSafe(info *types.Info, f *ScopeFunc, x *ast.SliceExpr) (string, bool) 
 	need := 0
 	okLo, okHi := x.Low == nil, x.High == nil
 	var why []string
+	// a bound named once (`last := len(parts) - 1`) is that expression, as long as the sliced
+	// value has not changed since
+	if id, ok := core.Unparen(x.High).(*ast.Ident); ok && x.High != nil {
+		if def := soleDef(info, id); def != nil && stableSince(info, f, x.X, def.Pos(), x) {
+			x = &ast.SliceExpr{X: x.X, Lbrack: x.Lbrack, Low: x.Low, High: def, Rbrack: x.Rbrack}
+		}
+	}
 	if x.Low != nil {
 		lo := core.Unparen(x.Low)
 		if k, ok := core.ConstInt(info, lo); ok {
@@ -1035,4 +1042,52 @@ func callersMadeWithLen(r *core.Run, f *ScopeFunc, fd *ast.FuncDecl, x *ast.Inde
 		return fmt.Sprintf("%s ranges over parameter %s and every one of the %d call(s) of %s passes for %s a slice made with the length of the argument for %s", iid.Name, srcName, callers, fd.Name.Name, xid.Name, srcName), true
 	}
 	return "", false
+}
+
+// soleDef: the expression a local was defined from, when that definition is the only
+// assignment it ever receives (and its address is never taken).
+func soleDef(info *types.Info, id *ast.Ident) ast.Expr {
+	obj := info.ObjectOf(id)
+	v, ok := obj.(*types.Var)
+	if !ok || v.IsField() || core.Current == nil {
+		return nil
+	}
+	fd := core.Current.EnclosingDecl(obj.Pos())
+	if fd == nil || fd.Body == nil {
+		return nil
+	}
+	var def ast.Expr
+	n := 0
+	ast.Inspect(fd.Body, func(nd ast.Node) bool {
+		switch y := nd.(type) {
+		case *ast.AssignStmt:
+			for i, l := range y.Lhs {
+				if lid, ok := l.(*ast.Ident); ok && info.ObjectOf(lid) == obj {
+					n++
+					if len(y.Lhs) == len(y.Rhs) {
+						def = y.Rhs[i]
+					}
+				}
+			}
+		case *ast.IncDecStmt:
+			if lid, ok := y.X.(*ast.Ident); ok && info.ObjectOf(lid) == obj {
+				n++
+			}
+		case *ast.UnaryExpr:
+			if lid, ok := y.X.(*ast.Ident); ok && y.Op == token.AND && info.ObjectOf(lid) == obj {
+				n++
+			}
+		case *ast.RangeStmt:
+			for _, e := range []ast.Expr{y.Key, y.Value} {
+				if lid, ok := e.(*ast.Ident); ok && info.ObjectOf(lid) == obj {
+					n += 2
+				}
+			}
+		}
+		return true
+	})
+	if n != 1 {
+		return nil
+	}
+	return def
 }
